@@ -3,7 +3,7 @@ Helper lemmas for C02 (dissector): the model of quic_dissector.py (TLX/Quic/Diss
 RFC 9001 §5.4 encoder of TLX/Spec/QuicPackets.lean.
 -/
 import TLX.Quic.Dissect
-import TLX.Spec.QuicPacketsExpect
+import TLX.Spec.QuicDissectStmt
 import TLX.Lemmas.QuicVarint
 namespace TLX.Lemmas.QuicDissect
 open TLX TLX.Quic TLX.Quic.Dissect TLX.Quic.Varint TLX.Spec.QuicPackets TLX.Spec.QuicFrames
@@ -207,21 +207,6 @@ theorem header_facts (fb : UInt8) (version dcid scid T d : Bytes) (hv : version.
   · have := slice_split d _ [UInt8.ofNat scid.length] _ (6 + dcid.length) (7 + dcid.length) e4
       (by simp [hv]; omega) (by simp; omega)
     rw [this, decodeVarint_single _ (by rw [ofNat_toNat _ (by omega)]; omega), ofNat_toNat _ (by omega)]
-
-/-! ### statement vocabulary: which header-protection key and algorithm the SENDER of a packet used
-(RFC 9001 §5.1: one set of keys per encryption level and direction; 0-RTT packets are only sent by clients;
-§5.2: Initial packets always use AEAD_AES_128_GCM, hence the AES-based header protection of §5.4.3) -/
-
-def senderKey : LType → Bool → KeyName
-  | .initial, true => .serverInitial
-  | .initial, false => .clientInitial
-  | .handshake, true => .serverHandshake
-  | .handshake, false => .clientHandshake
-  | .zeroRtt, _ => .clientEarly
-
-def senderChacha : LType → Bool → Bool
-  | .initial, _ => false
-  | _, c => c
 
 theorem extractLong_protect (mask : MaskFn) (env : Env) (isServer : Bool) (ts : Nat) (p : Long) (hwf : p.wf)
     (hver : p.version ≠ [0, 0, 0, 0]) (hscid : p.scid.length ≤ 63)
@@ -526,5 +511,61 @@ theorem extract_verneg (mask : MaskFn) (env : Env) (isServer : Bool) (guessed : 
   rw [← hd']
   unfold extractLong
   simp only [n1, s1, g5, ofOpt, bind, Except.bind, hto, n2, s2, n3, dv, n4, s4, if_true, n5, VerNeg.toPkt, VerNeg.first]
+
+section loop
+variable {σ : Type} (mask : MaskFn) (envOf : σ → Env) (handle : σ → List Pkt → σ)
+  (isServer : Bool) (guessed : Bytes) (ts : Nat)
+
+theorem dissectLoop_nil (s : σ) : dissectLoop mask envOf handle isServer guessed ts s [] = (s, []) := by
+  rw [dissectLoop]; simp
+
+theorem dissectLoop_cons (s : σ) (d : Bytes) (hd : d ≠ []) :
+    dissectLoop mask envOf handle isServer guessed ts s d =
+      let o := extract mask (envOf s) isServer guessed ts d
+      let r := dissectLoop mask envOf handle isServer guessed ts (handle s o.pkts) o.rest
+      (r.1, o.pkts ++ r.2) := by
+  rw [dissectLoop]
+  have : d.length ≠ 0 := by intro h; exact hd (List.eq_nil_of_length_eq_zero h)
+  simp [this]
+
+theorem dissectTrace_nil (s : σ) : dissectTrace mask envOf handle isServer guessed ts s [] = [] := by
+  rw [dissectTrace]; simp
+
+theorem dissectTrace_cons (s : σ) (d : Bytes) (hd : d ≠ []) :
+    dissectTrace mask envOf handle isServer guessed ts s d =
+      let o := extract mask (envOf s) isServer guessed ts d
+      (d, o) :: dissectTrace mask envOf handle isServer guessed ts (handle s o.pkts) o.rest := by
+  rw [dissectTrace]
+  have : d.length ≠ 0 := by intro h; exact hd (List.eq_nil_of_length_eq_zero h)
+  simp [this]
+
+theorem extract_pkts_le_one (env : Env) (d : Bytes) : (extract mask env isServer guessed ts d).pkts.length ≤ 1 := by
+  unfold extract
+  repeat' split
+  all_goals simp
+
+theorem trace_chain (n : Nat) (s : σ) (d : Bytes) (hn : d.length = n) :
+    let tr := dissectTrace mask envOf handle isServer guessed ts s d
+    Chain d tr ∧ tr.length ≤ d.length ∧
+    (dissectLoop mask envOf handle isServer guessed ts s d).2 = (tr.map (·.2.pkts)).flatten := by
+  induction n using Nat.strongRecOn generalizing s d with
+  | _ n ih =>
+    by_cases hd : d = []
+    · subst hd; simp [dissectTrace_nil, dissectLoop_nil, Chain]
+    · rw [dissectTrace_cons _ _ _ _ _ _ _ _ hd, dissectLoop_cons _ _ _ _ _ _ _ _ hd]
+      simp only
+      obtain ⟨t, ht, hrest⟩ := extract_rest_suffix mask (envOf s) isServer guessed ts d hd
+      have hlt : (extract mask (envOf s) isServer guessed ts d).rest.length < n := by
+        rw [hrest, List.length_drop]
+        have : 1 ≤ d.length := by
+          cases d with
+          | nil => exact absurd rfl hd
+          | cons _ _ => simp
+        omega
+      obtain ⟨h1, h2, h3⟩ := ih _ hlt (handle s (extract mask (envOf s) isServer guessed ts d).pkts) _ rfl
+      refine ⟨⟨rfl, hd, ⟨t, ht, hrest⟩, extract_pkts_le_one _ _ _ _ _ _, h1⟩, ?_, ?_⟩
+      · simp only [List.length_cons]; omega
+      · simp only [List.map_cons, List.flatten_cons, h3]
+end loop
 
 end TLX.Lemmas.QuicDissect
